@@ -118,35 +118,77 @@ FUTEX_NR = 202          # x86_64
 _CLK = os.sysconf("SC_CLK_TCK")
 
 
-def _thread_states(pid):
-    """[(tid, in_endless_futex_wait, schedstat)] for every thread of pid, or None when it is gone"""
-    out = []
-    try:
-        tids = os.listdir("/proc/%d/task" % pid)
-    except OSError:
-        return None
-    for tid in tids:
+def _tree_pids(root):
+    """root and its descendants (children lists of every thread, recursively)"""
+    out, todo = [], [root]
+    while todo:
+        p = todo.pop()
+        if p in out:
+            continue
+        out.append(p)
         try:
-            sc = open("/proc/%d/task/%s/syscall" % (pid, tid)).read().split()
-            st = open("/proc/%d/task/%s/stat" % (pid, tid)).read().rsplit(")", 1)[1].split()
-            # on-CPU nanoseconds and number of timeslices: unchanged between two samples = the thread never ran in between
-            ticks = open("/proc/%d/task/%s/schedstat" % (pid, tid)).read().strip()
+            for tid in os.listdir("/proc/%d/task" % p):
+                try:
+                    todo += [int(x) for x in open("/proc/%d/task/%s/children" % (p, tid)).read().split()]
+                except OSError:
+                    pass
         except OSError:
-            return None
-        endless = False
-        if sc and sc[0] == str(FUTEX_NR) and len(sc) >= 5 and st[0] == "S":
-            op = int(sc[2], 16) & 0x7f
-            # FUTEX_WAIT (0) / FUTEX_WAIT_BITSET (9) with a null timeout: only another thread's FUTEX_WAKE ends it
-            endless = op in (0, 9) and int(sc[4], 16) == 0
-        out.append((tid, endless, ticks))
+            pass
+    return out
+
+
+WAIT_NRS = {"61", "247"}                 # wait4, waitid: ends only when a child (inside the tree) changes state
+PIPE_IO_NRS = {"0", "1", "19", "20"}     # read, write, readv, writev: endless only on a pipe whose other end is inside the tree
+
+
+def _thread_states(pid):
+    """[(pid/tid, blocked_for_good, schedstat)] for every thread of pid and of its descendants, or None when the root is
+    gone. blocked_for_good: the thread sleeps in futex(FUTEX_WAIT[_BITSET], timeout = NULL), in wait4 / waitid, or in a
+    read / write on a pipe - states that only another thread of the same process tree can end (the drivers get their
+    stdin / stdout / stderr as regular files, share no memory with other processes, arm no timers)."""
+    out = []
+    pids = _tree_pids(pid)
+    if not os.path.isdir("/proc/%d/task" % pid):
+        return None
+    for p in pids:
+        try:
+            tids = os.listdir("/proc/%d/task" % p)
+        except OSError:
+            continue
+        for tid in tids:
+            try:
+                sc = open("/proc/%d/task/%s/syscall" % (p, tid)).read().split()
+                st = open("/proc/%d/task/%s/stat" % (p, tid)).read().rsplit(")", 1)[1].split()
+                # on-CPU nanoseconds and number of timeslices: unchanged between two samples = the thread never ran in between
+                ticks = open("/proc/%d/task/%s/schedstat" % (p, tid)).read().strip()
+            except OSError:
+                if p == pid:
+                    return None
+                continue
+            if st[0] == "Z":
+                continue        # exited, waiting to be reaped: the reaper's wait4 returns at once
+            endless = False
+            if sc and st[0] == "S":
+                if sc[0] == str(FUTEX_NR) and len(sc) >= 5:
+                    op = int(sc[2], 16) & 0x7f
+                    # FUTEX_WAIT (0) / FUTEX_WAIT_BITSET (9) with a null timeout: only another thread's FUTEX_WAKE ends it
+                    endless = op in (0, 9) and int(sc[4], 16) == 0
+                elif sc[0] in WAIT_NRS:
+                    endless = True
+                elif sc[0] in PIPE_IO_NRS and len(sc) >= 2:
+                    try:
+                        endless = os.readlink("/proc/%d/fd/%d" % (p, int(sc[1], 16))).startswith("pipe:")
+                    except (OSError, ValueError):
+                        endless = False
+            out.append(("%d/%s" % (p, tid), endless, ticks))
     return out
 
 
 def watched_run(argv, input_bytes=b"", wall_s=600, cwd=None, preexec_fn=None, env=None):
-    """Runs a driver process to completion under two monitors. (1) deadlock: every thread of the process sits in a
-    futex wait without timeout and no thread was scheduled at all (schedstat unchanged) across 4 consecutive samples
-    0.5 s apart - no thread is left that could issue the wake (the drivers share no memory with other processes and arm no timers), so the state is
-    permanent: a decided verdict, not a timing guess. (2) the wall-clock watchdog, whose firing only ever means
+    """Runs a process (and whatever it spawns) to completion under two monitors. (1) deadlock: every thread of the
+    process tree sits in a wait that only another thread of the tree can end (futex wait without timeout, wait4, pipe
+    read / write) and no thread was scheduled at all (schedstat unchanged) across 4 consecutive samples 0.5 s apart - no
+    thread is left that could end any of the waits, so the state is permanent: a decided verdict, not a timing guess. (2) the wall-clock watchdog, whose firing only ever means
     `timed_out` (inconclusive). Returns exit / signal / CPU (os.wait4 of this child) and the captured streams."""
     import tempfile
     t0 = time.time()
@@ -154,7 +196,14 @@ def watched_run(argv, input_bytes=b"", wall_s=600, cwd=None, preexec_fn=None, en
         fin.write(input_bytes)
         fin.flush()
         fin.seek(0)
-        p = subprocess.Popen(argv, stdin=fin, stdout=fout, stderr=ferr, preexec_fn=preexec_fn, cwd=cwd, env=env)
+        p = subprocess.Popen(argv, stdin=fin, stdout=fout, stderr=ferr, preexec_fn=preexec_fn, cwd=cwd, env=env, start_new_session=True)
+
+        def kill_tree():
+            import signal
+            try:
+                os.killpg(p.pid, signal.SIGKILL)     # the process and whatever it spawned (own session)
+            except OSError:
+                pass
         timed_out = deadlock = False
         streak, last, nthreads = 0, None, 0
         next_sample = t0 + 1.0
@@ -165,7 +214,7 @@ def watched_run(argv, input_bytes=b"", wall_s=600, cwd=None, preexec_fn=None, en
             now = time.time()
             if now - t0 > wall_s:
                 timed_out = True
-                p.kill()
+                kill_tree()
                 _, status, ru = os.wait4(p.pid, 0)
                 break
             if now >= next_sample:
@@ -178,7 +227,7 @@ def watched_run(argv, input_bytes=b"", wall_s=600, cwd=None, preexec_fn=None, en
                     nthreads = len(ts)
                     if streak >= 4:
                         deadlock = True
-                        p.kill()
+                        kill_tree()
                         _, status, ru = os.wait4(p.pid, 0)
                         break
                 else:
